@@ -32,6 +32,18 @@ pub fn up_transform(b: u8) -> u8 {
 
 pub struct UpIface {
     pub seen: Arc<Mutex<Vec<u8>>>,
+    /// set by `Start(greeting, lf_back)`: what the upgraded handler writes before it reads anything
+    pub greeting: Mutex<Option<(usize, usize)>>,
+}
+
+/// the greeting of the upgraded echo service: `n` bytes `g`, with a line feed `lf_back` bytes before
+/// the end (when 0 < lf_back <= n), written in one go
+pub fn up_greeting(n: usize, lf_back: usize) -> Vec<u8> {
+    let mut v = vec![b'g'; n];
+    if lf_back > 0 && lf_back <= n {
+        v[n - lf_back] = b'\n';
+    }
+    v
 }
 
 impl varlink::Interface for UpIface {
@@ -65,8 +77,23 @@ impl varlink::Interface for UpIface {
     fn call(&self, call: &mut Call) -> varlink::Result<()> {
         let req = call.request.unwrap();
         if req.method == "org.example.up.Start" {
+            let p = req.parameters.clone().unwrap_or(Value::Null);
             call.to_upgraded();
-            call.reply_struct(Reply::parameters(Some(json!({"ok": true}))))
+            match p.get("greeting").and_then(|g| g.as_u64()) {
+                Some(n) if !call.is_oneway() => {
+                    // the service speaks first: its reply and, right behind it, a greeting, in ONE write
+                    // (the listen loop of the library calls the upgraded handler only once the client has
+                    // sent something, so the greeting cannot come from there)
+                    let lf = p.get("lf_back").and_then(|g| g.as_u64()).unwrap_or(0);
+                    let mut b = serde_json::to_vec(&Reply::parameters(Some(json!({"ok": true})))).unwrap();
+                    b.push(0);
+                    b.extend_from_slice(&up_greeting(n as usize, lf as usize));
+                    call.writer.write_all(&b).map_err(|_| varlink::Error::from(varlink::ErrorKind::Generic))?;
+                    call.writer.flush().map_err(|_| varlink::Error::from(varlink::ErrorKind::Generic))?;
+                }
+                _ => call.reply_struct(Reply::parameters(Some(json!({"ok": true}))))?,
+            }
+            Ok(())
         } else {
             let m = req.method.to_string();
             call.reply_method_not_found(m)
@@ -204,11 +231,14 @@ pub struct WorldSpec {
     pub svc: Sx,
     pub resolver: Option<Vec<(String, Vec<String>)>>,
     pub up: bool,
+    /// served by a sequential accept loop: one connection at a time, the next one is accepted when the
+    /// current one has been served to its end
+    pub seq: bool,
 }
 
 impl WorldSpec {
     pub fn plain(svc: Sx) -> WorldSpec {
-        WorldSpec { svc, resolver: None, up: false }
+        WorldSpec { svc, resolver: None, up: false, seq: false }
     }
     /// `(world <svc> <resolver|-> <t|f>)`, resolver = `(resolver (x<iface> x<addr>*)*)`
     pub fn to_sx(&self) -> Sx {
@@ -224,11 +254,15 @@ impl WorldSpec {
                 sx::list(l)
             }
         };
-        sx::tagged("world", vec![self.svc.clone(), r, sx::boolean(self.up)])
+        let mut v = vec![self.svc.clone(), r, sx::boolean(self.up)];
+        if self.seq {
+            v.push(sx::atom("seq"));
+        }
+        sx::tagged("world", v)
     }
     pub fn from_sx(s: &Sx) -> Option<WorldSpec> {
         let l = s.as_list()?;
-        if l.len() != 4 || l[0].as_atom()? != "world" {
+        if (l.len() != 4 && l.len() != 5) || l[0].as_atom()? != "world" {
             return None;
         }
         let resolver = match &l[2] {
@@ -245,7 +279,7 @@ impl WorldSpec {
             }
             _ => return None,
         };
-        Some(WorldSpec { svc: l[1].clone(), resolver, up: l[3].as_atom()? == "t" })
+        Some(WorldSpec { svc: l[1].clone(), resolver, up: l[3].as_atom()? == "t", seq: l.len() == 5 })
     }
 }
 
@@ -289,7 +323,7 @@ pub fn build_world(w: &WorldSpec) -> BuiltWorld {
         ifaces.push(Box::new(ResolverIface { table: t.clone(), count: AtomicUsize::new(0) }));
     }
     if w.up {
-        ifaces.push(Box::new(UpIface { seen: up_seen.clone() }));
+        ifaces.push(Box::new(UpIface { seen: up_seen.clone(), greeting: Mutex::new(None) }));
         ifaces.push(Box::new(AbortIface));
     }
     BuiltWorld { service: VarlinkService::new(vendor, product, version, url, ifaces), seen, up_seen, calls }
@@ -343,12 +377,44 @@ pub fn spawn_service(w: &WorldSpec, address: &str) -> ServiceHandle {
     };
     let addr = address.to_string();
     let service = built.service;
-    std::thread::spawn(move || {
-        let cfg = varlink::ListenConfig { stop_listening: Some(stop), ..Default::default() };
-        if let Err(e) = varlink::listen(service, &addr, &cfg) {
-            *failed.lock().unwrap() = Some(format!("{:?}", e.kind()));
-        }
-    });
+    if w.seq {
+        // a single-threaded server: accept, serve that connection to its end, accept the next
+        std::thread::spawn(move || {
+            let listener = match varlink::Listener::new(&addr) {
+                Ok(l) => l,
+                Err(e) => {
+                    *failed.lock().unwrap() = Some(format!("{:?}", e.kind()));
+                    return;
+                }
+            };
+            loop {
+                if stop.load(Ordering::SeqCst) {
+                    return;
+                }
+                match listener.accept(100) {
+                    Ok(mut stream) => {
+                        if let Ok((r, mut w)) = stream.split() {
+                            let mut br = std::io::BufReader::new(r);
+                            serve_stream(&service, &mut br, &mut w);
+                        }
+                        let _ = stream.shutdown();
+                    }
+                    Err(e) => {
+                        if *e.kind() != varlink::ErrorKind::Timeout {
+                            return;
+                        }
+                    }
+                }
+            }
+        });
+    } else {
+        std::thread::spawn(move || {
+            let cfg = varlink::ListenConfig { stop_listening: Some(stop), ..Default::default() };
+            if let Err(e) = varlink::listen(service, &addr, &cfg) {
+                *failed.lock().unwrap() = Some(format!("{:?}", e.kind()));
+            }
+        });
+    }
     // wait until it accepts (the probe connection is closed at once)
     let _ = connect_retry(address, Duration::from_secs(3));
     h
